@@ -191,7 +191,7 @@ theorem error_names_equation_and_missing (t : Table) (arrs : List PArr) (gs : Li
       obtain ⟨h1, h2, d, hd, _, h4, h5, h6⟩ := checkEquationWith_missing hfe
       refine ⟨h1, h2, d, hd, ?_, ?_, ?_⟩
       · intro err herr
-        rcases h4 err herr with ⟨c1, c2⟩ | ⟨s, hs, a, ha, c1, c2⟩
+        rcases h4 err herr with ⟨c1, c2, _⟩ | ⟨s, hs, a, ha, c1, c2, _⟩
         · left
           exact ⟨c1, fun x => by rw [c2 x, hmapd x]⟩
         · right
@@ -200,6 +200,114 @@ theorem error_names_equation_and_missing (t : Table) (arrs : List PArr) (gs : Li
         exact h5 (strip m) ((hmapd _).mpr ⟨m, hm, rfl⟩) hmd
       · intro s hs a ha m hm hma
         exact h6 s hs a ha (strip m) ((hmaps _).mpr ⟨m, hm, rfl⟩) hma
+
+/-- **rejection_is_justified.**  The check raises only when the problem really
+is incomplete — with one exception that the code has and the model keeps: the
+test is `eq_props < props` (a *strict* subset), so an array that holds nothing
+but names the equation needs is reported too (with an empty "missing" set).
+Every `ParticleArray` carries `tag`, `pid`, `gid`, so this needs an equation
+that uses all three. -/
+theorem rejection_is_justified (t : Table) (arrs : List PArr) (gs : List GroupT)
+    (v : Verdict) (h : checkProgram t arrs gs = v) (hv : v ≠ Verdict.ok) :
+    ∃ e ∈ allEquations gs,
+      ¬ Complete t arrs e ∨
+      (∃ d, findArr arrs e.dest = some d ∧ ∀ x ∈ d.props, ∃ m, NeedsDst t e m ∧ x = strip m) ∨
+      (∃ s ∈ e.sources.getD [], ∃ a, findArr arrs s = some a ∧
+        ∀ x ∈ a.props, ∃ m, NeedsSrc t e m ∧ x = strip m) := by
+  obtain ⟨pre, e, post, hsplit, _, hfe⟩ := firstError_err _ _ v h hv
+  refine ⟨e, by rw [hsplit]; simp, ?_⟩
+  have hmapd : ∀ x, x ∈ (groupNeeds t e).2.map strip ↔ ∃ m, NeedsDst t e m ∧ x = strip m := by
+    intro x
+    simp only [List.mem_map, mem_groupNeeds_dst]
+    constructor
+    · rintro ⟨m, hm, rfl⟩; exact ⟨m, hm, rfl⟩
+    · rintro ⟨m, hm, rfl⟩; exact ⟨m, hm, rfl⟩
+  have hmaps : ∀ x, x ∈ (groupNeeds t e).1.map strip ↔ ∃ m, NeedsSrc t e m ∧ x = strip m := by
+    intro x
+    simp only [List.mem_map, mem_groupNeeds_src]
+    constructor
+    · rintro ⟨m, hm, rfl⟩; exact ⟨m, hm, rfl⟩
+    · rintro ⟨m, hm, rfl⟩; exact ⟨m, hm, rfl⟩
+  cases v with
+  | ok => exact absurd rfl hv
+  | invalidDest n d =>
+    left
+    obtain ⟨_, _, hnone⟩ := checkEquationWith_invalidDest hfe
+    rintro ⟨d', hd', _⟩
+    rw [hnone] at hd'; cases hd'
+  | invalidSource n s =>
+    left
+    obtain ⟨_, _, srcs, h2, h3, h4⟩ := checkEquationWith_invalidSource hfe
+    rintro ⟨_, _, _, hs⟩
+    obtain ⟨a, ha, _⟩ := hs s (by rw [h2]; exact h3)
+    rw [h4] at ha; cases ha
+  | missing n errs =>
+    obtain ⟨_, hne, d, hd, _, h4, _, _⟩ := checkEquationWith_missing hfe
+    obtain ⟨err, herr⟩ := List.exists_mem_of_ne_nil _ hne
+    rcases h4 err herr with ⟨_, _, c3⟩ | ⟨s, hs, a, ha, _, _, c3⟩
+    · rcases c3 with ⟨x, hx, hxd⟩ | hall
+      · left
+        rintro ⟨d', hd', hdn, _⟩
+        rw [hd] at hd'; cases hd'
+        obtain ⟨m, hm, rfl⟩ := (hmapd x).mp hx
+        exact hxd (hdn m hm)
+      · right; left
+        exact ⟨d, hd, fun x hx => (hmapd x).mp (hall x hx)⟩
+    · rcases c3 with ⟨x, hx, hxa⟩ | hall
+      · left
+        rintro ⟨_, _, _, hsn⟩
+        obtain ⟨a', ha', han⟩ := hsn s hs
+        rw [ha] at ha'; cases ha'
+        obtain ⟨m, hm, rfl⟩ := (hmaps x).mp hx
+        exact hxa (han m hm)
+      · right; right
+        exact ⟨s, hs, a, ha, fun x hx => (hmaps x).mp (hall x hx)⟩
+
+/-- **needs_are_read.**  Conversely to `groupAccesses_are_needs`, everything an
+equation of a (sub-)group needs is a pointer the generated code takes: the
+check demands nothing the generated code does not use.  (`sources = some []`
+does not occur: `Equation.__init__` turns an empty list into `None`.) -/
+theorem needs_are_read (t : Table) (eqs : List Eqn) (e : Eqn) (he : e ∈ eqs)
+    (hsrc : e.sources ≠ some []) :
+    (∀ n, NeedsDst t e n → (e.dest, strip n) ∈ groupAccesses t eqs) ∧
+    (∀ s ∈ e.sources.getD [], ∀ n, NeedsSrc t e n → (s, strip n) ∈ groupAccesses t eqs) := by
+  have hdest : e.dest ∈ destList eqs := by
+    simp only [destList, List.mem_eraseDups, List.mem_map]
+    exact ⟨e, he, rfl⟩
+  have hmine : e ∈ ofDest eqs e.dest := by
+    simp only [ofDest, List.mem_filter, beq_self_eq_true, and_true]
+    exact he
+  constructor
+  · intro n hn
+    unfold groupAccesses
+    refine List.mem_flatMap.mpr ⟨e.dest, hdest, List.mem_append.mpr (Or.inl ?_)⟩
+    refine List.mem_map.mpr ⟨n, ?_, rfl⟩
+    unfold destSetup
+    cases hs : e.sources with
+    | none =>
+      refine List.mem_append.mpr (Or.inl ((mem_groupDstNames t _ n).mpr ⟨e, ?_, hn⟩))
+      simp only [noSource, List.mem_filter]
+      exact ⟨hmine, by simp [hs]⟩
+    | some srcs =>
+      cases srcs with
+      | nil => exact absurd hs hsrc
+      | cons s0 rest =>
+        refine List.mem_append.mpr (Or.inr (List.mem_flatMap.mpr ⟨s0, ?_, ?_⟩))
+        · simp only [sourceList, List.mem_eraseDups, List.mem_flatMap]
+          exact ⟨e, hmine, by simp [hs]⟩
+        · refine (mem_groupDstNames t _ n).mpr ⟨e, ?_, hn⟩
+          simp only [withSource, List.mem_filter]
+          exact ⟨hmine, by simp [hs]⟩
+  · intro s hs n hn
+    unfold groupAccesses
+    refine List.mem_flatMap.mpr ⟨e.dest, hdest, List.mem_append.mpr (Or.inr ?_)⟩
+    refine List.mem_flatMap.mpr ⟨s, ?_, List.mem_map.mpr ⟨n, ?_, rfl⟩⟩
+    · simp only [sourceList, List.mem_eraseDups, List.mem_flatMap]
+      exact ⟨e, hmine, hs⟩
+    · unfold srcSetup
+      refine (mem_groupSrcNames t _ n).mpr ⟨e, ?_, hn⟩
+      simp only [withSource, List.mem_filter, List.contains_eq_mem, decide_eq_true_eq]
+      exact ⟨hmine, hs⟩
 
 /-! ## integrator steppers -/
 
